@@ -427,7 +427,18 @@ func (c *Ctx) checkEndingClearsFirst(slot *types.Var, reach map[*ssa.Function]bo
 			}
 			return false
 		}
-		if found, _ := core.PathAvoiding(g, nil, core.IsReturn, isD, nil); !found {
+		// (paths on which the slot was found empty aside)
+		cutNil, _ := core.PassEdges(g, core.NilGuard("currentCall==nil", core.IsFieldLoad(slot), true))
+		// ... and that does nothing that can come back to an ending function: it only frees
+		pure := true
+		core.AllInstrs(g, func(in ssa.Instruction) {
+			if call, ok := in.(*ssa.Call); ok {
+				if cal := call.Call.StaticCallee(); cal != nil && reach[cal] {
+					pure = false
+				}
+			}
+		})
+		if found, _ := core.PathAvoiding(g, nil, core.IsReturn, isD, cutNil); !found && pure {
 			releases[g] = true
 		}
 	}
